@@ -737,8 +737,9 @@ class Einsum(EvalableModel):
         self: Einsum = self.model_copy()
         self.renames = RenameList(self.renames)
 
-        # Grab the default renames and update the renames with more values
-        default_renames = renames.get_renames_for_einsum("default")
+        # Grab this Einsum's top-level renames (falling back to the default renames for
+        # names it does not override) and update the renames with more values
+        default_renames = renames.get_renames_for_einsum(self.name)
         for tensor_rename in default_renames.tensor_accesses:
             if tensor_rename.name not in self.renames:
                 self.renames.append(tensor_rename)
